@@ -269,7 +269,32 @@ def assume_case(case):
     return {"ok": True, "nt": kind != "plain", "ops": k, "out": kind}
 
 
-FUNCS = {"assumption_symbols": assume_case, "operations": op_case, "refusals": refuse_case, "circuits": circuit_case}
+def map_history_case(case):
+    """{'op': descriptor, 'hist': [[key index, value name] ...]}: ONE dictionary object is updated in place between binds (a parameter sweep); every bind must use
+    the dictionary's CURRENT content, for operations, gates and circuits alike"""
+    from orquestra.quantum import circuits as C
+    op = mk_operation(case["op"])
+    circ = C.Circuit([op] if hasattr(op, "gate") else [C.X(0), op])
+    m = {}
+    k = 0
+    for key_i, vname in case["hist"]:
+        if VALS[vname] is None:
+            m.pop(KEYS[key_i], None)
+        else:
+            m[KEYS[key_i]] = VALS[vname]
+        snapshot = dict(m)
+        for target, what in ((op, "operation"), (circ, "circuit")) + (((op.gate, "gate"),) if hasattr(op, "gate") else ()):
+            b = target.bind(m)
+            k += 1
+            got = list(b.params) if what != "circuit" else list(b.operations[-1].params)
+            exp = [expected_param(p, snapshot) for p in op.params]
+            if len(got) != len(exp) or not all(same_expr(x, y) for x, y in zip(exp, got)) or m != snapshot:
+                return {"ok": False, "msg": "%s.bind with the map updated in place to %s: parameters %s, substitution gives %s" % (what, {str(a): str(v) for a, v in snapshot.items()}, got, exp),
+                        "sig": "map-history:" + what, "ops": k}
+    return {"ok": True, "nt": len(case["hist"]) >= 2, "ops": k, "out": case["op"]["k"]}
+
+
+FUNCS = {"map_histories": map_history_case, "assumption_symbols": assume_case, "operations": op_case, "refusals": refuse_case, "circuits": circuit_case}
 
 
 def op_alphabet(thorough):
@@ -317,6 +342,11 @@ def run(run):
         for b in sub:
             cc.append({"ops": [a, b], "n": 3, "maps": cmaps[:: (1 if thorough else 4)]})
     secs.append(Section("circuits", cc, circuit_case, horizon=600, chunk=4, desc="all 2-operation circuits over a %d-operation sub-alphabet: bind keeps width/order, free symbols, unitary" % len(sub)))
+    hops = [{"k": "RX", "p": ["2a"], "q": [0]}, {"k": "CPHASE", "p": ["a+b"], "q": [1, 0]}, {"k": "U3", "p": ["a", "ab", "cos(a)"], "q": [0]}, {"k": "custom", "p": ["b", "a+b"], "q": [0]},
+            {"k": "RY", "p": ["ab"], "q": [1, 0], "w": ["c1"]}, {"k": "mp", "p": ["2a", "cos(a)", "c", "b-c/2"], "q": []}, {"k": "RZ", "p": ["a"], "q": [0]}]
+    hev = [[0, "0.3"], [0, "-1.2"], [0, "e"], [1, "0.3"], [1, "0"], [0, "u"], [2, "1/3"]]
+    hh = [{"op": o, "hist": [hev[i] for i in combo]} for o in hops for d in (2, 3) for combo in itertools.product(range(len(hev)), repeat=d) if len(set(combo)) == d or d == 2]
+    secs.append(Section("map_histories", hh if thorough else hh[::2], map_history_case, horizon=600, desc="one symbol map updated in place between binds (every history of 2-3 updates over 7): each bind sees the current content"))
     secs.append(Section("assumption_symbols", [{"kind": k} for k in ("plain", "real", "positive", "dummy", "integer")], assume_case, horizon=600, chunk=1,
                         desc="symbols with assumptions / Dummy symbols through gate.bind, operation.bind, Circuit.bind"))
     run.run_sections(secs)
